@@ -1,5 +1,7 @@
 SPECIFICATION Spec
 CONSTANTS
+  Files = 1
+  StickyGrid = FALSE
   Truthiness = TRUE
   As = {1, 2, 5, 25}
   Es = {1, 2, 3, 4}
